@@ -50,6 +50,9 @@ def san_env(logbase):
     e = dict(os.environ)
     opts = "log_path=%s:abort_on_error=0:detect_leaks=0:allocator_may_return_null=1:handle_abort=1:print_stacktrace=1" % logbase
     e["ASAN_OPTIONS"] = opts + ":detect_stack_use_after_return=0:malloc_context_size=8"
+    if os.environ.get("VERIF_MALLOC_FILL"):
+        # what a fresh heap block holds is no part of any result: a run may be given another fill byte than the default 0xbe (C05 does so for its reference executions)
+        e["ASAN_OPTIONS"] += ":malloc_fill_byte=%s:max_malloc_fill_size=1048576" % os.environ["VERIF_MALLOC_FILL"]
     e["UBSAN_OPTIONS"] = "log_path=%s:print_stacktrace=1:halt_on_error=1" % logbase
     e["TSAN_OPTIONS"] = "log_path=%s:halt_on_error=0:second_deadlock_stack=1:report_signal_unsafe=0" % logbase
     return e
